@@ -127,3 +127,11 @@ Definition valid_position (s : text) (p : N * N) : Prop :=
   exists lt, nth_error (doc_lines s) (N.to_nat (fst p)) = Some lt /\ snd p <= nlen lt.
 Definition valid_position16 (s : text) (p : N * N) : Prop :=
   exists lt, nth_error (doc_lines s) (N.to_nat (fst p)) = Some lt /\ snd p <= len16 lt.
+
+(* a (line, scalar column) pair denotes a position of the document: the line exists, the line has at least
+   that many characters left, and the position lies inside the line's span (terminator included) *)
+Definition in_document (s : text) (p : nat * N) : Prop :=
+  (fst p < length (lines s))%nat /\
+  (N.to_nat (snd p) <= length (skipb (line_begin s (fst p)) s))%nat /\
+  line_begin s (fst p) <= offset_of s p <= line_end s (fst p).
+
